@@ -23,7 +23,7 @@ ASSUMPTIONS = ["monodisperse spherically symmetric models: sphere, core_shell_sp
                "q -> 0 equality is checked with error bound (q*size)^2"]
 REQUIRED_MONITORS = ["F1sq_le_F2", "I_equals_scale_F2_over_V", "lowq_equality_mono", "spherical_equality_mono",
                      "volume_sphere_mode", "modes_positive_finite"]
-REQUIRED_BUCKETS = {"quick": ["pd:off", "pd:on", "mesh>100", "mode:volume-sphere", "hollow", "lane:asan"]}
+REQUIRED_BUCKETS = {"quick": ["pd:off", "pd:on", "mesh>100", "mode:volume-sphere", "hollow", "lane:asan", "zero-default-length-switched-on"]}
 REQUIRED_BUCKETS["thorough"] = REQUIRED_BUCKETS["quick"]
 SPHERICAL = ["sphere", "core_shell_sphere", "fuzzy_sphere", "core_multi_shell", "onion", "spherical_sld", "vesicle",
              "multilayer_vesicle"]
@@ -55,6 +55,15 @@ def run_case(case, rec):
     rng = core.rng_for(case["seed"], PROP, name, case["k"])
     k = case["k"]
     pars = sas.base_pars(i, case["seed"]*977 + k, style="default" if k == 0 else "wide" if k % 3 == 2 else "random")
+    # length parameters that default to zero switch a feature on (interfacial roughness, ...); the generic
+    # generator leaves them near zero, so every third case sets them to a few percent of the particle size
+    if k % 3 == 1:
+        sz = sas.size_scale(i, pars)
+        for p_ in i.parameters.kernel_parameters:
+            if p_.units == "Ang" and p_.length == 1 and p_.default == 0 and p_.name in pars and p_.limits[0] <= 0 \
+                    and not np.isfinite(p_.limits[1]):
+                pars[p_.name] = float(rng.uniform(0.02, 0.2))*sz
+                rec.bucket("zero-default-length-switched-on")
     # make rim/shell parameters asymmetric so that swapped arguments show
     pd_on = (k % 2 == 1)
     meshn = 1
@@ -122,6 +131,17 @@ def run_case(case, rec):
                           dict(c, ratio_F1sq_F2=r, q_size=qs))
             if name in SPHERICAL:
                 rec.check("spherical_equality_mono", core.close(F1**2, F2, 1e-10, 1e-12*float(np.max(F2))), c)
+    # a result set that was handed out stays consistent when the same kernel is used again with other values
+    # (the outputs must not be views of a buffer the next call rewrites)
+    other = {kk: (vv*1.3 if kk in {p_.name for p_ in i.parameters.kernel_parameters if p_.type == "volume" and p_.units == "Ang"}
+                  else vv) for kk, vv in pars.items() if not kk.endswith(("_pd", "_pd_n", "_pd_nsigma", "_pd_type"))}
+    try:
+        direct_model.call_Fq(kernel, dict(other, radius_effective_mode=0))
+    except Exception:
+        pass
+    rec.check("result_set_consistent_after_later_call",
+              core.close(I, scale*F2/Vs + bg, 1e-12, 1e-14*float(np.max(np.abs(I)))),
+              dict(ctx, F2_now=F2, V_shell=Vs, I=I, later_call=other))
     rec.set_shape((name, sorted((kk, pars[kk]) for kk in pars if kk.endswith("_pd_n")), maxmode, k % 7),
                   nontrivial=(k != 0))
     if k < 2:
